@@ -32,6 +32,7 @@ func scenario(t *testing.T, idx int64, r *rand.Rand) {
 	yields := []int{0, 50, 2000}[r.IntN(3)]
 	var trace []string
 	var ops []string
+	deadArrivals := 0
 	checks, fullRefusals, bursts, overlaps := 0, 0, 0, 0
 	bad := false
 	bubble(t, func(t *testing.T) {
@@ -104,8 +105,16 @@ func scenario(t *testing.T, idx int64, r *rand.Rand) {
 				time.Sleep(time.Duration(1+r.IntN(3)) * time.Millisecond)
 				w.Quiesce()
 				before := w.Snap("pre")
-				wt := w.Spawn()
-				ops = append(ops, fmt.Sprintf("arrive(%d)", wt.ID))
+				var wt *blk.Waiter
+				if r.IntN(4) == 0 { // a caller whose context is already done when it arrives
+					wt = w.SpawnWith(func(ctx context.Context, cancel context.CancelFunc) { cancel() })
+					wt.Cancelled.Store(true)
+					ops = append(ops, fmt.Sprintf("arrive-with-done-context(%d)", wt.ID))
+					deadArrivals++
+				} else {
+					wt = w.Spawn()
+					ops = append(ops, fmt.Sprintf("arrive(%d)", wt.ID))
+				}
 				check("after-arrival")
 				if before.Free == 0 && len(before.Blocked)+len(before.GivingUp) >= k.Backlog {
 					fullRefusals++
@@ -222,6 +231,7 @@ func scenario(t *testing.T, idx int64, r *rand.Rand) {
 	rt.Count("return_instant_backlog_checks", returnChecks.Swap(0))
 	rt.Count("quiescent_checks", int64(checks))
 	rt.Count("arrivals_at_full_backlog", int64(fullRefusals))
+	rt.Count("arrivals_with_a_done_context", int64(deadArrivals))
 	rt.Count("simultaneous_bursts", int64(bursts))
 	rt.Count("give_ups_overlapping_a_release", int64(overlaps))
 	if !bad && checks > 5 {
